@@ -2847,72 +2847,142 @@ impl Compiler {
         Ok(())
     }
 
-    /// Compile a namespace declaration
+    /// A namespace that contains only types (interfaces, type aliases, ambient
+    /// declarations, such namespaces) is erased like they are.
+    fn namespace_is_instantiated(body: &[Statement]) -> bool {
+        body.iter().any(|stmt| match stmt {
+            Statement::TypeAlias(_) | Statement::InterfaceDeclaration(_) | Statement::Empty => {
+                false
+            }
+            Statement::NamespaceDeclaration(ns) => Self::namespace_is_instantiated(&ns.body),
+            Statement::Export(export) => match export.declaration.as_deref() {
+                Some(Statement::TypeAlias(_)) | Some(Statement::InterfaceDeclaration(_)) => false,
+                Some(Statement::NamespaceDeclaration(ns)) => {
+                    Self::namespace_is_instantiated(&ns.body)
+                }
+                Some(_) => true,
+                None => !export.type_only && !export.specifiers.is_empty(),
+            },
+            _ => true,
+        })
+    }
+
+    /// Compile a namespace declaration.
+    ///
+    /// Follows the TypeScript emit: the body runs in its own scope with the namespace
+    /// object at hand; an exported variable lives on that object (`N.x`), so inside the
+    /// body its name is an alias of the property; every block of a merged namespace sees
+    /// the members exported by the earlier blocks.
     fn compile_namespace_declaration(
         &mut self,
         decl: &crate::ast::NamespaceDeclaration,
     ) -> Result<(), JsError> {
+        if !Self::namespace_is_instantiated(&decl.body) {
+            return Ok(());
+        }
         self.builder.set_span(decl.span);
 
         let name_idx = self.builder.add_string(decl.id.name.cheap_clone())?;
         let ns_obj = self.builder.alloc_register()?;
+        let nested = !self.ns_path.is_empty();
+        let parent_key = self.ns_path.join(".");
+        self.ns_path.push(decl.id.name.to_string());
+        let path_key = self.ns_path.join(".");
 
-        // Check if namespace already exists (for merging)
-        // Try to get existing namespace, use it if found, otherwise create new
-        let existing_reg = self.builder.alloc_register()?;
-
-        // Try to get the existing namespace variable (returns undefined if not found)
-        self.builder.emit(Op::TryGetVar {
-            dst: existing_reg,
-            name: name_idx,
-        });
-
-        // Check if existing is undefined - use JumpIfNullish since undefined is nullish
-        // If undefined/null, jump to create new object, else use existing
-        let jump_to_create = self.builder.emit_jump_if_nullish(existing_reg);
-
-        // Use existing namespace
-        self.builder.emit(Op::Move {
-            dst: ns_obj,
-            src: existing_reg,
-        });
-        let jump_to_end = self.builder.emit_jump();
-
-        // Create new namespace object
-        self.builder.patch_jump(jump_to_create);
-        self.builder.emit(Op::CreateObject { dst: ns_obj });
-        self.builder.emit(Op::DeclareVar {
-            name: name_idx,
-            init: ns_obj,
-            mutable: true,
-        });
-
-        self.builder.patch_jump(jump_to_end);
-
-        // Free temporary registers
-        self.builder.free_register(existing_reg);
+        if nested {
+            // Inside a namespace body the name is either a member the enclosing namespace
+            // already exports (merge into it) or a fresh local.
+            let known = self
+                .ns_exports
+                .get(&parent_key)
+                .is_some_and(|names| names.iter().any(|(n, _)| n == &decl.id.name))
+                || self
+                    .ns_locals
+                    .contains(&(decl.id.name.cheap_clone(), self.builder.current_scope_id()));
+            if known {
+                self.builder.emit(Op::GetVar {
+                    dst: ns_obj,
+                    name: name_idx,
+                });
+            } else {
+                let prefix = format!("{}.", path_key);
+                self.ns_exports
+                    .retain(|k, _| k != &path_key && !k.starts_with(&prefix));
+                self.ns_locals
+                    .push((decl.id.name.cheap_clone(), self.builder.current_scope_id()));
+                self.builder.emit(Op::CreateObject { dst: ns_obj });
+                self.builder.emit(Op::DeclareVar {
+                    name: name_idx,
+                    init: ns_obj,
+                    mutable: true,
+                });
+            }
+        } else {
+            // Top level: merge with an existing namespace, function, class or enum of
+            // that name (`N || (N = {})`), otherwise create the object.
+            let existing_reg = self.builder.alloc_register()?;
+            self.builder.emit(Op::TryGetVar {
+                dst: existing_reg,
+                name: name_idx,
+            });
+            let jump_to_create = self.builder.emit_jump_if_nullish(existing_reg);
+            self.builder.emit(Op::Move {
+                dst: ns_obj,
+                src: existing_reg,
+            });
+            let jump_to_end = self.builder.emit_jump();
+            self.builder.patch_jump(jump_to_create);
+            self.builder.emit(Op::CreateObject { dst: ns_obj });
+            self.builder.emit(Op::DeclareVar {
+                name: name_idx,
+                init: ns_obj,
+                mutable: true,
+            });
+            self.builder.patch_jump(jump_to_end);
+            self.builder.free_register(existing_reg);
+        }
 
         // Push a new scope for the namespace body
         self.builder.emit(Op::PushScope);
+
+        // Members exported by earlier blocks of this namespace are in scope
+        let inherited: Vec<(JsString, bool)> =
+            self.ns_exports.get(&path_key).cloned().unwrap_or_default();
+        for (name, mutable) in inherited {
+            let idx = self.builder.add_string(name)?;
+            self.builder.emit(Op::DeclareAliasVar {
+                name: idx,
+                obj: ns_obj,
+                mutable,
+            });
+        }
 
         // Compile the namespace body statements
         for stmt in decl.body.iter() {
             self.compile_statement_impl(stmt)?;
 
             // If the statement exports something, add it to the namespace object
-            // For now, we handle exported declarations by adding them to the namespace
             if let Statement::Export(export) = stmt
                 && let Some(ref decl) = export.declaration
             {
-                self.add_export_to_namespace(ns_obj, decl)?;
+                self.add_export_to_namespace(ns_obj, decl, &path_key)?;
             }
         }
 
         // Pop the namespace scope
         self.builder.emit(Op::PopScope);
+        self.ns_path.pop();
 
         self.builder.free_register(ns_obj);
         Ok(())
+    }
+
+    /// Remember that the namespace `path_key` exports `name`
+    fn record_namespace_export(&mut self, path_key: &str, name: &JsString, mutable: bool) {
+        let names = self.ns_exports.entry(path_key.to_string()).or_default();
+        if !names.iter().any(|(n, _)| n == name) {
+            names.push((name.cheap_clone(), mutable));
+        }
     }
 
     /// Add an exported declaration to a namespace object
@@ -2920,88 +2990,63 @@ impl Compiler {
         &mut self,
         ns_obj: super::Register,
         decl: &Statement,
+        path_key: &str,
     ) -> Result<(), JsError> {
-        match decl {
+        let (names, alias, mutable): (Vec<JsString>, bool, bool) = match decl {
             Statement::VariableDeclaration(var_decl) => {
+                let mut names = Vec::new();
                 for declarator in var_decl.declarations.iter() {
-                    if let crate::ast::Pattern::Identifier(id) = &declarator.id {
-                        let value_reg = self.builder.alloc_register()?;
-                        let name_idx = self.builder.add_string(id.name.cheap_clone())?;
-                        self.builder.emit(Op::GetVar {
-                            dst: value_reg,
-                            name: name_idx,
-                        });
-                        self.builder.emit(Op::SetPropertyConst {
-                            obj: ns_obj,
-                            key: name_idx,
-                            value: value_reg,
-                        });
-                        self.builder.free_register(value_reg);
-                    }
+                    Self::collect_pattern_names(&declarator.id, &mut names);
                 }
+                // `export let x` is `N.x`: from here on the name is an alias of the property
+                (
+                    names,
+                    true,
+                    !matches!(var_decl.kind, crate::ast::VariableKind::Const),
+                )
             }
-            Statement::FunctionDeclaration(func_decl) => {
-                if let Some(ref id) = func_decl.id {
-                    let value_reg = self.builder.alloc_register()?;
-                    let name_idx = self.builder.add_string(id.name.cheap_clone())?;
-                    self.builder.emit(Op::GetVar {
-                        dst: value_reg,
-                        name: name_idx,
-                    });
-                    self.builder.emit(Op::SetPropertyConst {
-                        obj: ns_obj,
-                        key: name_idx,
-                        value: value_reg,
-                    });
-                    self.builder.free_register(value_reg);
-                }
-            }
-            Statement::ClassDeclaration(class_decl) => {
-                if let Some(ref id) = class_decl.id {
-                    let value_reg = self.builder.alloc_register()?;
-                    let name_idx = self.builder.add_string(id.name.cheap_clone())?;
-                    self.builder.emit(Op::GetVar {
-                        dst: value_reg,
-                        name: name_idx,
-                    });
-                    self.builder.emit(Op::SetPropertyConst {
-                        obj: ns_obj,
-                        key: name_idx,
-                        value: value_reg,
-                    });
-                    self.builder.free_register(value_reg);
-                }
-            }
+            Statement::FunctionDeclaration(func_decl) => (
+                func_decl.id.iter().map(|id| id.name.cheap_clone()).collect(),
+                false,
+                true,
+            ),
+            Statement::ClassDeclaration(class_decl) => (
+                class_decl.id.iter().map(|id| id.name.cheap_clone()).collect(),
+                false,
+                true,
+            ),
             Statement::EnumDeclaration(enum_decl) => {
-                let value_reg = self.builder.alloc_register()?;
-                let name_idx = self.builder.add_string(enum_decl.id.name.cheap_clone())?;
-                self.builder.emit(Op::GetVar {
-                    dst: value_reg,
-                    name: name_idx,
-                });
-                self.builder.emit(Op::SetPropertyConst {
-                    obj: ns_obj,
-                    key: name_idx,
-                    value: value_reg,
-                });
-                self.builder.free_register(value_reg);
+                (vec![enum_decl.id.name.cheap_clone()], false, true)
             }
             Statement::NamespaceDeclaration(nested_ns) => {
-                // Add nested namespace to parent namespace
-                let value_reg = self.builder.alloc_register()?;
-                let name_idx = self.builder.add_string(nested_ns.id.name.cheap_clone())?;
-                self.builder.emit(Op::GetVar {
-                    dst: value_reg,
-                    name: name_idx,
-                });
-                self.builder.emit(Op::SetPropertyConst {
-                    obj: ns_obj,
-                    key: name_idx,
-                    value: value_reg,
-                });
-                self.builder.free_register(value_reg);
+                if !Self::namespace_is_instantiated(&nested_ns.body) {
+                    return Ok(());
+                }
+                (vec![nested_ns.id.name.cheap_clone()], false, true)
             }
-            _ => {}
+            _ => return Ok(()),
+        };
+        for name in names {
+            let value_reg = self.builder.alloc_register()?;
+            let name_idx = self.builder.add_string(name.cheap_clone())?;
+            self.builder.emit(Op::GetVar {
+                dst: value_reg,
+                name: name_idx,
+            });
+            self.builder.emit(Op::SetPropertyConst {
+                obj: ns_obj,
+                key: name_idx,
+                value: value_reg,
+            });
+            self.builder.free_register(value_reg);
+            if alias {
+                self.builder.emit(Op::DeclareAliasVar {
+                    name: name_idx,
+                    obj: ns_obj,
+                    mutable,
+                });
+            }
+            self.record_namespace_export(path_key, &name, mutable);
         }
         Ok(())
     }
